@@ -351,6 +351,34 @@ func checkMapLoop(p *Prog, l *Ledger, rule string, ml *mapLoop) {
 			problems = append(problems, fmt.Sprintf("accumulator %q (%s) is carried around the range over %s", name, detail, owner))
 		}
 	}
+	// 1b. a search: the loop is left from its body with something taken from the entry at hand (return key, true on the
+	// first match).  Which entry is met first depends on the iteration order, unless at most one entry can match: the map
+	// is a package-level literal whose values (and keys) are pairwise distinct constants
+	for b := range ml.blocks {
+		for _, sb := range b.Succs {
+			if ml.blocks[sb] || b == ml.header {
+				continue
+			}
+			r, ok := sb.Instrs[len(sb.Instrs)-1].(*ssa.Return)
+			if !ok {
+				continue
+			}
+			carries := false
+			for _, res := range r.Results {
+				if mentionsNext(res, ml.next, 0) {
+					carries = true
+				}
+			}
+			if !carries {
+				continue
+			}
+			if distinct, why := distinctLiteralMap(p, ml.rng.X); !distinct {
+				problems = append(problems, fmt.Sprintf("the search at %s returns what the first matching entry of %s holds, and %s: which entry is met first changes from run to run", p.Pos(r.Pos()), owner, why))
+			} else {
+				accs = append(accs, "search:one-match-at-most")
+			}
+		}
+	}
 	// 2. writes to memory that outlives an iteration, and element selection
 	for b := range ml.blocks {
 		for _, ins := range b.Instrs {
@@ -575,4 +603,59 @@ func (ml *mapLoop) memAccumulatorSorted(al *ssa.Alloc, st *ssa.Store) (bool, str
 		}
 	}
 	return len(sorts) > 0, "append, never sorted"
+}
+
+// mentionsNext: v is computed from the key or the value of the iteration step nx.
+func mentionsNext(v ssa.Value, nx *ssa.Next, depth int) bool {
+	if v == nil || depth > 6 {
+		return false
+	}
+	if ex, ok := v.(*ssa.Extract); ok && ex.Tuple == ssa.Value(nx) {
+		return ex.Index >= 1
+	}
+	if ins, ok := v.(ssa.Instruction); ok {
+		if _, isPhi := v.(*ssa.Phi); isPhi && depth > 2 {
+			return false
+		}
+		for _, op := range ins.Operands(nil) {
+			if *op != nil && mentionsNext(*op, nx, depth+1) {
+				return true
+			}
+		}
+	}
+	return false
+}
+
+// distinctLiteralMap: m is a package-level map built once from a literal whose keys and values are pairwise distinct
+// constants (so an equality test on the value, or on the key, matches one entry at most).
+func distinctLiteralMap(p *Prog, m ssa.Value) (bool, string) {
+	u, ok := m.(*ssa.UnOp)
+	if !ok {
+		return false, "the map is not a package-level table"
+	}
+	gl, ok := u.X.(*ssa.Global)
+	if !ok {
+		return false, "the map is not a package-level table"
+	}
+	mk, ok := p.globalInit(gl.Name()).(*ssa.MakeMap)
+	if !ok {
+		return false, gl.Name() + " is not built from a literal"
+	}
+	seenV := map[string]bool{}
+	for _, r := range *mk.Referrers() {
+		mu, ok := r.(*ssa.MapUpdate)
+		if !ok {
+			continue
+		}
+		c, ok := stripConv(mu.Value).(*ssa.Const)
+		if !ok || c.Value == nil {
+			return false, "an entry of " + gl.Name() + " holds a value that is not a constant"
+		}
+		k := c.Value.ExactString()
+		if seenV[k] {
+			return false, "several entries of " + gl.Name() + " hold the value " + k
+		}
+		seenV[k] = true
+	}
+	return len(seenV) > 0, ""
 }
